@@ -18,6 +18,7 @@ import (
 	"net/netip"
 	"strings"
 	"sync"
+	"time"
 
 	"github.com/miekg/dns"
 	"github.com/semihalev/sdns/config"
@@ -118,7 +119,7 @@ func sysNew(mode string, qmin int) {
 		v.Add(fmt.Sprintf("h%d.victim.test. 300 IN A 198.18.0.%d", i, 100+i))
 	}
 	e := w.AddZone(evilZone, l3.ZoneOpts{})
-	e.Add("a.evil.test. 300 IN A 198.18.1.1")
+	e.Add("a.evil.test. 300 IN A 198.18.1.1", "d.evil.test. 300 IN DNAME victim.test.", "c.evil.test. 300 IN CNAME a.evil.test.")
 	s := &sysState{w: w, victim: v, evil: e, vsrv: v.Servers[0], esrv: e.Servers[0], trap: trap, trapIP: trap.IP, localIP: local, mode: mode,
 		scripts: map[string]func(dns.Question, *dns.Msg) *dns.Msg{}, spoof: map[string]func(*dns.Msg) []*dns.Msg{}, asked: map[string]bool{}}
 	s.esrv.SetBehaviour(l3.Behaviour{Tamper: func(q dns.Question, honest *dns.Msg, tcp bool) *dns.Msg {
@@ -457,6 +458,13 @@ func (s *sysState) attack(shape string, k int) (string, string) {
 		script(func(m *dns.Msg) {
 			m.Answer = []dns.RR{rrCNAME(qn, "txt.victim.test."), rrTXT("txt.victim.test.", "forged")}
 		})
+	case "dname-honest":
+		// an honest DNAME of the attacker's own zone onto the victim zone: the
+		// target is resolved through the victim's servers (no script: the zone data answers)
+		trigger = "www.d.evil.test."
+	case "cname-inzone":
+		// an honest in-zone alias chain answered in one message must survive the filter
+		trigger = "c.evil.test."
 	case "cname-honest":
 		script(func(m *dns.Msg) { m.Answer = []dns.RR{rrCNAME(qn, "www.victim.test.")} })
 	// ---- negative answers carrying foreign records
@@ -604,12 +612,46 @@ func (s *sysState) attack(shape string, k int) (string, string) {
 		}
 	}
 	s.lastTags = tags
+	// Whatever foreign record rode along in ANY section of either reply must not
+	// have become retrievable under its own name: no cache entry keyed by
+	// (its owner, its type) may hold it, and the glue caches must not hold a
+	// forged address for its owner.
+	for _, m := range []*dns.Msg{r, r2} {
+		if m == nil {
+			continue
+		}
+		for _, sec := range [][]dns.RR{m.Answer, m.Ns, m.Extra} {
+			for _, rr := range sec {
+				h := rr.Header()
+				if h.Rrtype == dns.TypeOPT || inAttackerZone(h.Name) || s.w.Published(rr) {
+					continue
+				}
+				if c := s.cached(h.Name, h.Rrtype); c != nil {
+					for _, csec := range [][]dns.RR{c.Answer, c.Ns, c.Extra} {
+						for _, crr := range csec {
+							if crr.Header().Rrtype != dns.TypeOPT && !inAttackerZone(crr.Header().Name) && !s.w.Published(crr) && or == "ok" {
+								or = fail("l3/attack/foreign-section-record-cached-under-its-own-name", "%s", rrText(crr))
+							}
+						}
+					}
+				}
+				if a, ok := rr.(*dns.A); ok {
+					v4, _ := resolver.VerifC07GlueCached(s.p.Resolver, lcn(h.Name))
+					for _, g := range v4 {
+						if ad, ok2 := netip.AddrFromSlice(a.A); ok2 && ad.Unmap() == g && or == "ok" {
+							or = fail("l3/attack/foreign-section-address-entered-glue-cache", "%s", rrText(rr))
+						}
+					}
+				}
+			}
+		}
+	}
 	return replySummary(r) + " 2nd: " + replySummary(r2), or
 }
 
 var allShapes = []string{
 	"extra-a", "extra-ns-glue", "auth-ns", "auth-a", "ans-a", "ans-foreign-only", "ans-ns", "ans-dname",
-	"cname-forged", "cname-forged-ghost", "cname-forged-txt", "cname-honest",
+	"cname-forged", "cname-forged-ghost", "cname-forged-txt", "cname-honest", "dname-honest", "cname-inzone",
 	"nx-soa-victim", "nodata-extra",
 	"ref-self", "ref-up", "ref-root", "ref-side", "ref-mixed", "ref-class", "ref-offpath",
 	"glue-oob", "glue-strsuffix", "glue-notns", "glue-loop", "glue-local",
@@ -645,6 +687,10 @@ func execL3(f []string) vlib.Res {
 			tags += "," + sys.lastTags
 		}
 		return vlib.Res{Impl: sum, Oracle: or, Tags: tags}
+	case "advance":
+		// virtual clock: every stored timestamp moves into the past (never sleeps)
+		sys.p.Advance(time.Duration(vlib.Atoi(f[2])) * time.Second)
+		return vlib.Res{Impl: "ok", Oracle: "-", Tags: "l3"}
 	case "audit":
 		return vlib.Res{Impl: "audited", Oracle: sys.audit(), Tags: "nt,l3"}
 	}
